@@ -87,6 +87,7 @@ func c12RunPrime(t *testing.T, r *verifmc.Run, a *c12Prime, extra func(f *bf.Fie
 	ia := bf.IntAlphabet(P, 64, 24, a.name)
 	all := f.Prepare("e", bf.Append(P, ia, near, lp))
 	small := f.Prepare("k", bf.Thin(all.Ops, r.Pick(48, 128)))
+	f.CheckAccepted(r, "UnmarshalBinary", all)
 	r.Set("elements", all.Len())
 	r.Set("key_elements", small.Len())
 	r.Rule("operands: residues below the modulus entered through UnmarshalBinary: the integer alphabet around every 64/32-bit limb boundary (and modulus minus those, R, R^2, 1/R), modulus with +-1 on each limb, limb products (core^n plus <=k limbs away from 00../FF.. over 9 limb values), 24 pseudo-random; ALL ordered pairs for Add/Sub/Mul with junk-filled output and aliasing z=x, z=y, x=y, z=x=y; constructors SetBytes (every length 0..2*size+3, four fills, and multiples of the modulus), SetString (decimal/hex/out-of-range), SetUint64; pair sweeps above 1.5e6 cases are counted by the ordered_pairs counters instead of being hashed into distinct_nontrivial; a distinct case is one (operation, operand tuple)")
